@@ -286,6 +286,7 @@ def make_machine(n_min: int, n_max: int, sam_only: bool = False):
 
         def _do(self, op):
             self.case["ops"].append(op)
+            self.ctx.current_case = self.case
             self.sim.apply(op)
 
         @precondition(lambda self: self.sim is not None and self.sim.valid_steps())
